@@ -11,6 +11,9 @@ from impl import Document, ParserOptions, FormatOptions, TagNode, extract, to_xm
 
 XML_NS = impl.XML_NS
 INDENTS = ["", " ", "  ", "\t", " \t"]
+# FormatOptions.indentation accepts every str.isspace string: also those with a newline
+LF_INDENTS = ["\n", " \n", "\n "]
+INDENTS0 = INDENTS + LF_INDENTS
 
 WORDS = ["a", "bb", "ccc", "dddd", "eeeee", "ffffff", "ggggggg", "hhhhhhhh", "iiiiiiiii", "jjjjjjjjjj",
          "x&y", "<", ">", "é", 'q"q', "l'l", "unbreakablewordoftwentysix", "mmmmmmmmmmmmmmmmmmmmmmmmmmmmmmmmmmmmmmmmmmmmm"]
@@ -209,6 +212,81 @@ def in_domain(t):
         else:
             prev_text = False
     return all(in_domain(c) for c in t[4])
+
+
+def uses_namespaces(t):
+    if t[0] != "tag":
+        return False
+    return t[1] != "" or any(a[0] not in ("", XML_NS) for a in t[3]) or any(uses_namespaces(c) for c in t[4])
+
+
+def in_domain_ns(t):
+    """in_domain without the condition on namespaces"""
+    if t[0] != "tag":
+        return True
+    prev_text = False
+    for c in t[4]:
+        if c[0] == "text":
+            if prev_text or c[1] == "":
+                return False
+            prev_text = True
+        else:
+            prev_text = False
+    return all(in_domain_ns(c) for c in t[4])
+
+
+def namespaces_of(t):
+    if t[0] != "tag":
+        return set()
+    out = {t[1]} | {a[0] for a in t[3] if a[0] != XML_NS}
+    for c in t[4]:
+        out |= namespaces_of(c)
+    return out
+
+
+def ns_view(node):
+    """(tbl, decl): the prefix table [(namespace, '' | 'prefix:')] and the namespace declarations [(name, uri)] that
+    the serializer of `node` uses, read off the start tag of the node's plain serialization with a namespace-unaware
+    parser (Ws/Qualified.v: pf_of tbl, decl)"""
+    import xml.parsers.expat
+    first = []
+    p = xml.parsers.expat.ParserCreate()
+    p.ordered_attributes = True
+
+    def start(name, attrs):
+        if not first:
+            first.append(attrs)
+    p.StartElementHandler = start
+    p.Parse(node.serialize(), True)
+    attrs = first[0]
+    decl = [(attrs[i], attrs[i + 1]) for i in range(0, len(attrs), 2)
+            if attrs[i] == "xmlns" or attrs[i].startswith("xmlns:")]
+    tbl = [(uri, "" if name == "xmlns" else name[6:] + ":") for name, uri in decl]
+    if not any(p_ == "" for _, p_ in tbl):
+        tbl.append(("", ""))
+    return tbl, decl
+
+
+def ctbl(tbl):
+    return "[" + "; ".join("(%s, %s)" % (cstr(n), cstr(p_)) for n, p_ in tbl) + "]"
+
+
+def cdecl(decl):
+    return "[" + "; ".join("([], %s, %s)" % (cstr(k), cstr(v)) for k, v in decl) + "]"
+
+
+def gen_ns_decorate(rng, t, tag_ns=("", "", "u1", "u2"), attr_ns=("", "", "", "ua")):
+    """put the elements / some attributes of a generated tree into namespaces (attribute namespaces are kept apart
+    from element namespaces: an attribute in the default namespace is C02 / C13 matter)"""
+    if t[0] != "tag":
+        return t
+    attrs, seen_names = [], set()
+    for a in t[3]:
+        ns = a[0] if a[0] == XML_NS else rng.choice(attr_ns)
+        if (ns, a[1]) not in seen_names:
+            seen_names.add((ns, a[1]))
+            attrs.append((ns, a[1], a[2]))
+    return ("tag", rng.choice(tag_ns), t[2], attrs, [gen_ns_decorate(rng, c, tag_ns, attr_ns) for c in t[4]])
 
 
 def has_preserve(t):
